@@ -23,6 +23,9 @@ import (
 
 type kase struct {
 	Src []byte `json:"src"`
+	// Key: the violation key under which the case was reported, when it is
+	// not the default one (long inputs are keyed by shape)
+	Key string `json:"key,omitempty"`
 }
 
 var bom = []byte{0xef, 0xbb, 0xbf}
@@ -79,7 +82,7 @@ func isPrefixModBOM(buf, src []byte) bool {
 // generator claims src is a valid file (then go/parser must agree, else the
 // case is only counted, not judged).
 func checkSrc(src []byte) (vs []kit.V, valid bool) {
-	c := kase{append([]byte(nil), src...)}
+	c := kase{Src: append([]byte(nil), src...)}
 	add := func(class, what string) {
 		vs = append(vs, kit.V{Key: class + " src=" + kit.Q(src), What: what, Case: c})
 	}
@@ -253,6 +256,10 @@ func main() {
 		// repeating the same input; a violation on any repetition is genuine.
 		for i := 0; i < 12000; i++ {
 			if vs, _ := checkSrc(c.Src); len(vs) > 0 {
+				if c.Key != "" {
+					vs = vs[:1]
+					vs[0].Key = c.Key
+				}
 				return vs
 			}
 		}
@@ -372,6 +379,74 @@ func main() {
 			})
 		}
 	}
+	// (D) long elements in every hole: comments, blank runs, identifiers and
+	// string contents whose length straddles the reader's buffer sizes
+	var longs, longsValid int64
+	var sizes []int
+	for n := 4080; n <= 4100; n++ {
+		sizes = append(sizes, n)
+	}
+	for n := 8186; n <= 8196; n++ {
+		sizes = append(sizes, n)
+	}
+	sizes = append(sizes, 16384, 65537)
+	if r.Thorough() {
+		for n := 4000; n < 4080; n++ {
+			sizes = append(sizes, n)
+		}
+		for n := 12280; n <= 12292; n++ {
+			sizes = append(sizes, n)
+		}
+	}
+	longKinds := []func(n int) string{
+		func(n int) string { return "//" + strings.Repeat("x", n) + "\n" },
+		func(n int) string { return "/*" + strings.Repeat("x", n) + "*/" },
+		func(n int) string { return "/*" + strings.Repeat("*", n) + "/" },
+		func(n int) string { return strings.Repeat(" ", n) },
+		func(n int) string { return strings.Repeat("\n", n) },
+		func(n int) string { return " " + strings.Repeat("a", n) + " " },
+		func(n int) string { return strings.Repeat("a", n) },
+		func(n int) string { return "\n" + strings.Repeat("//x\n", n/4) },
+	}
+	type longJob struct{ pre, fill, post string }
+	lch := make(chan longJob, 64)
+	var lwg sync.WaitGroup
+	for w := 0; w < nw; w++ {
+		lwg.Add(1)
+		go func() {
+			defer lwg.Done()
+			for j := range lch {
+				src := []byte(j.pre + j.fill + j.post)
+				atomic.AddInt64(&longs, 1)
+				vs, valid := checkSrc(src)
+				for _, v := range vs {
+					// the key names the shape, not the 4 KiB of filler
+					v.Key = fmt.Sprintf("%s long-element pre=%q kind=%q len=%d", strings.SplitN(v.Key, " ", 2)[0], j.pre, j.fill[:3], len(j.fill))
+					if len(v.What) > 400 {
+						v.What = v.What[:200] + " ... " + v.What[len(v.What)-200:]
+					}
+					r.Violation(v.Key, v.What, kase{Src: src, Key: v.Key})
+				}
+				if valid {
+					atomic.AddInt64(&longsValid, 1)
+				}
+			}
+		}()
+	}
+	for _, sk := range append(append([][2]string{}, skeletons...), strSkeletons...) {
+		for _, n := range sizes {
+			for _, k := range longKinds {
+				if r.Expired() {
+					break
+				}
+				lch <- longJob{sk[0], k(n), sk[1]}
+			}
+		}
+	}
+	close(lch)
+	lwg.Wait()
+	r.Set("long_element_files", longs)
+	r.Set("long_element_files_valid", longsValid)
 	r.Set("skeleton_hole_files", holes)
 	r.Set("skeleton_hole_files_valid", holesValid)
 	r.Set("skeleton_hole_max_tokens", fillLen)
@@ -403,9 +478,9 @@ func main() {
 		}
 		_ = tokSyntax
 	})
-	r.Set("evaluations", files+toks+holes)
-	r.Set("distinct_nontrivial", validFiles+tokValid+holesValid)
-	r.Set("rule", "grammar: (A) every context (BOM? x leading comment x separator x trailer) x every single import declaration; (B) reduced contexts x every pair of declarations from a reduced set; (C) ten skeleton files with one hole filled by every token string of <= skeleton_hole_max_tokens over {/,*,LF,SP,a,;}, and three string-literal holes filled over {a,\\,\",x,6,1,`,LF,/,*}; plus every token string of length <= max_tokens over the 18-token lexical alphabet. non-trivial = accepted by go/parser as a complete valid file (so the import-list and prefix rules apply), counted")
+	r.Set("evaluations", files+toks+holes+longs)
+	r.Set("distinct_nontrivial", validFiles+tokValid+holesValid+longsValid)
+	r.Set("rule", "grammar: (A) every context (BOM? x leading comment x separator x trailer) x every single import declaration; (B) reduced contexts x every pair of declarations from a reduced set; (C) ten skeleton files with one hole filled by every token string of <= skeleton_hole_max_tokens over {/,*,LF,SP,a,;}, and three string-literal holes filled over {a,\\,\",x,6,1,`,LF,/,*}; (D) the same thirteen holes filled with one long element (line comment, two block-comment shapes, blanks, newlines, identifier, string content, a run of short comments) of every length 4080..4100, 8186..8196, 16384 and 65537 bytes; plus every token string of length <= max_tokens over the 18-token lexical alphabet. non-trivial = accepted by go/parser as a complete valid file (so the import-list and prefix rules apply), counted")
 	r.Set("generated_files", files)
 	r.Set("generated_files_valid", validFiles)
 	r.Set("generated_files_rejected_by_go_parser_not_judged", rejected)
